@@ -15,6 +15,18 @@ Definition spec_effective (D : dmap) (f : hfield) : option string :=
 (* one group per destination, titled with the class and the destination *)
 Definition spec_title (w : hwrap) : string := hw_qual w ++ " ['" ++ join_dot (hw_path w) ++ "']".
 
+(* the description of a group: what is written about the member that holds the dataclass (docstring below it, else the
+   comment above it, else the inline comment), else the description part of the class docstring - shortened only when it
+   is huge AND the fields carry their own documentation; nothing when the class has no docstring *)
+Definition spec_description (is_member : bool) (below above inline class_docstring description shortened : string)
+           (fields_have_docstrings huge : bool) : string :=
+  if is_member && negb (String.eqb below "") then below
+  else if is_member && negb (String.eqb above "") then above
+  else if is_member && negb (String.eqb inline "") then inline
+  else if String.eqb class_docstring "" then ""
+  else if fields_have_docstrings && huge then shortened
+  else description.
+
 Fixpoint forall2b {A B} (p : A -> B -> bool) (l1 : list A) (l2 : list B) : bool :=
   match l1, l2 with
   | [], [] => true
